@@ -2,6 +2,7 @@
 (crate parsers + from_syn; syn token primitives modelled)."""
 import itertools
 import z3
+import z3
 from engine import Ref, Cell, Panic
 
 
@@ -38,3 +39,80 @@ def repeat_panics(ctx):
             ctx.violation('ast::multiple_from_syn', 'second #[repeat] without #[stop_repeat] (%s)' % ('variant' if kind == 'variant' else 'field'),
                           'derive panics: %s' % n['msg'], {'input': text, 'native': n['msg']})
     ctx.cov['sub_checks']['repeat_placements'] = len(items)
+
+
+MEMBER_ARGS = ['0u8', '7usize', '-1', '"s"', 'zz', '0', 'zz, 0u8', '0u8, zz', '@', '~ as u8', '{ 1 }', 'X| 0u8', 'X| zz', 'X|', 'a.b', '1.5', '_', 'a::b', 'a::b| c', '(1, 2)', '[1]', '', 'zz, ', '0, 1', 'X| 0, ~', 'zz zz', '| zz', '0usize, @']
+TYPE_ARGS = ['X', 'X as {}', 'X as ()', 'X as Unit', 'X as Foo', '(i32, i64)', 'X, E', 'X| vars(a: {1})', 'X| vars(a: 1)', 'X| ..x', 'X| return 1', 'X| _ => 1', 'X| repeat(), stop_repeat',
+             'X| repeat(bogus)', 'X| attribute(inline)', '0u8', '"s"', 'X<T>', 'X<', '', 'X|', 'X| vars()', 'X| skip_repeat, skip_repeat', 'X, E, F', 'X as {} as ()', 'a::b::C<D>, e::F| vars(x: {1}, y: {2}), ..z']
+OTHER = [('ghost', ['{ 1 }', 'X| { 1 }', 'X', '1', '0u8', '', 'X|', '{ }']), ('ghosts', ['a: { 1 }', 'X| a: { 1 }, 0: { 2 }', 'a.b@c: { 1 }', 'a: 1', 'A { .. }: { 1 }', 'A(..): { 1 }', '', '0u8: { 1 }', 'a@: { 1 }']),
+         ('child', ['a', 'a.b', 'X| a.0', '0u8', '', 'a.', 'X|']), ('parent', ['', 'X', 'a, b', 'X| [map(c)] a, b: T', '[parent(a)] b: T', '[bogus(c)] a', '[parent(a)] [parent(b)] c', '0u8', '[map(0u8)] a']),
+         ('child_parents', ['a: A', 'a: A as ()', 'X| a.b: B, a: A', 'a', 'a: 0u8', '']), ('where_clause', ['T: Clone', 'X| T: Clone', '', '0u8']),
+         ('literal', ['1', 'X| 1', '', '"s"']), ('pattern', ['1..=2', '_', '']), ('type_hint', ['as ()', 'as {}', 'as Unit', 'as Foo', 'X| as ()', '']), ('as_type', ['i64', 'zz, i64', 'X| 0, i64', '']),
+         ('repeat', ['', 'map', 'permeate()', 'permeate(), map, ghost', 'bogus', 'permeate', 'map,'])]
+
+
+def parse_layer_panics(ctx):
+    """the crate's own attribute parsers (MIR, syn token primitives modelled) on odd argument token sequences, with a symbolic
+    instruction name: every outcome must be tokens or diagnostics"""
+    import synmodel, c13
+    from engine import SymStr, Unsupported
+    from build import MEMBER_MAP_NAMES, TRAIT_NAMES
+    e = ctx.engine()
+    synmodel.install(e)
+    cases = []
+    for a in MEMBER_ARGS:
+        cases.append(('member', '#[map(X)] #[try_map(Y, Er)] struct S { #[SYM(%s)] a: i32, b: i32 }' % a, MEMBER_MAP_NAMES))
+        cases.append(('variant-field', '#[map(X)] enum E { A { #[SYM(%s)] x: i32 } }' % a, ['map', 'from', 'into', 'try_map']))
+    for a in TYPE_ARGS:
+        cases.append(('type', '#[SYM(%s)] struct S { a: i32 }' % a, TRAIT_NAMES))
+    for nm, argl in OTHER:
+        for a in argl:
+            if nm in ('ghosts', 'child_parents', 'where_clause'):
+                cases.append((nm, '#[map(X)] #[%s(%s)] struct S { a: i32 }' % (nm, a), None))
+                if nm == 'ghosts':
+                    cases.append((nm, '#[map(X)] #[%s(%s)] enum E { A }' % (nm, a), None))
+            elif nm in ('literal', 'pattern', 'type_hint'):
+                cases.append((nm, '#[map(i32)] enum E { #[%s(%s)] A, B }' % (nm, a), None))
+            else:
+                cases.append((nm, '#[map(X)] #[child_parents(a: A)] struct S { #[%s(%s)] a: i32, b: i32 }' % (nm, a), None))
+    done = []
+    unsupported = 0
+    for kind, text, uni in cases:
+        def run(eng):
+            sym = {}
+            if uni:
+                atom = z3.Int('nm')
+                eng.assume(z3.And(atom >= 0, atom < len(uni)))
+                sym = {'SYM': SymStr(atom, uni)}
+            return c13.outcome(eng, text, sym)
+        try:
+            res = e.explore(run)
+        except (Unsupported, ValueError, IndexError, KeyError, AttributeError, TypeError) as ex:
+            unsupported += 1
+            continue
+        ctx.absorb(e, res)
+        for r in res:
+            nm = None
+            if uni:
+                mdl = ctx.model_of(r.pc)
+                nm = uni[mdl.eval(z3.Int('nm'), model_completion=True).as_long()]
+            out = r.value if r.kind == 'ok' else ('panic', r.value)
+            done.append((kind, text.replace('SYM', nm) if nm else text, out))
+    nat = ctx.replay.run_many([d[1] for d in done])
+    dev = 0
+    for (kind, text, out), n in zip(done, nat):
+        if out[0] == 'panic' and n['status'] == 'panic':
+            msg = str(n['msg'])
+            site = 'attr.rs parse layer'
+            cls = 'repeat' if 'repeat' in msg else ('unwrap' if 'unwrap' in msg or 'Result::unwrap' in msg else ('unreachable' if 'unreachable' in msg else 'panic'))
+            ctx.violation(site, '%s/%s' % (kind, cls), 'derive panics while parsing attribute arguments: %s' % msg[:200], {'input': text, 'native': msg})
+        elif (out[0] == 'panic') != (n['status'] == 'panic'):
+            ctx.inconclusive.append('ENCODING-MISMATCH (parse layer, panic): %s :: engine %s native %s %s' % (text, out[0], n['status'], n.get('msg')))
+        elif out[0] == n['status'] or (out[0] == 'err' and n['status'] in ('err', 'input_parse_error')):
+            ctx.cov['traces_validated_against_impl'] += 1
+        else:
+            dev += 1
+    ctx.cov['sub_checks']['parse_layer_cases'] = len(cases)
+    ctx.cov['sub_checks']['parse_layer_paths'] = len(done)
+    ctx.cov['sub_checks']['parse_layer_not_executable_in_model'] = unsupported
+    ctx.cov['sub_checks']['parse_layer_accept_reject_deviations_of_the_syn_model (no panic involved)'] = dev
